@@ -68,7 +68,7 @@ def starts : List Nat → Nat → List Nat
   | [], acc => [acc]
   | r :: rs, acc => acc :: starts rs (acc + r)
 
-def total (res : List Nat) : Nat := res.foldl (· + ·) 0
+def total (res : List Nat) : Nat := res.sum
 
 def maxItem (res : List Nat) : Nat := res.foldl max 0
 
@@ -100,7 +100,7 @@ def baWriteItem (w : BAWriter) (i : Nat) (buffers : List Bytes) : Option BAWrite
   else
     match w.cursor[i]?, w.cursor[i + 1]? with
     | some p, some q =>
-      let len := (buffers.map List.length).foldl (· + ·) 0
+      let len := (buffers.map List.length).sum
       if p + len > q then none
       else
         let (out, _) := buffers.foldl (fun (acc : Bytes × Nat) b => (writeAt acc.1 acc.2 b, acc.2 + b.length))
@@ -163,7 +163,7 @@ structure Entry where
   id : BitVec 64
   tag : BitVec 64
   data : Bytes
-deriving BEq, Repr
+deriving DecidableEq, Repr
 
 /-- header (`idAndTag`, length) + payload, as `WriteItem` lays an entry down in its bucket. -/
 def entryBytes (b t : BitVec 64) (e : Entry) : Bytes :=
